@@ -1,6 +1,6 @@
 (* C19 - Counterfactual event simplification and factorisation preserve probability. *)
 From Coq Require Import List Bool.
-From Y0 Require Import Base.ListSet Graph.MixedGraph Dsl.Syntax Dsl.Build Alg.Id Alg.Cg Alg.CtfAnc Proofs.CtfP Sem.Scm Sem.CfSem Proofs.ScmP Proofs.MinimizeSemP Proofs.CgSemP Proofs.AncSemP.
+From Y0 Require Import Base.ListSet Graph.MixedGraph Dsl.Syntax Dsl.Build Alg.Id Alg.Cg Alg.CtfAnc Proofs.CtfP Sem.Scm Sem.CfSem Proofs.ScmP Proofs.MinimizeSemP Proofs.CgSemP Proofs.AncSemP Proofs.SimplifySemP.
 Import ListNotations.
 
 (* FIRST CLAUSE, in full: 'minimising a counterfactual variable yields the same random variable in every compatible model'.
@@ -50,6 +50,31 @@ Proof.
   split; [intros v x x' u _; reflexivity|]. vm_compute. auto.
 Qed.
 
+(* ... and the part of the second clause that HOLDS: when no variable of the minimised event is reflexive (no Y_y), SIMPLIFY keeps the truth of the
+   event at every exogenous state of every model, and answers 'impossible' only for events that are true at no state. *)
+Theorem C19_simplify_without_reflexive_conjuncts_preserves_truth (g : mg nat) (D : Type) `{EqB D} (U : Type) (f : nat -> (nat -> D) -> U -> D)
+  (rho : nat * bool -> D) (order : list nat) (ev m ev' : cevent) u :
+  local g U f -> is_topo g order = true ->
+  minimized_of g ev = Some m -> (forall p, In p ev -> In (vn (fst p)) (nodes g)) -> (forall p, In p m -> is_reflexive (fst p) = false) ->
+  simplify ev g = SEvent ev' -> cevent_true U f rho order ev u = cevent_true U f rho order ev' u.
+Proof. intros Hl Ho Hm Hn Hr. exact (simplify_same_truth g U f rho Hl order Ho u ev m Hm Hn Hr ev'). Qed.
+
+Theorem C19_simplify_without_reflexive_conjuncts_impossible_only_if_never_true (g : mg nat) (D : Type) `{EqB D} (U : Type) (f : nat -> (nat -> D) -> U -> D)
+  (rho : nat * bool -> D) (order : list nat) (ev m : cevent) u :
+  (forall n, rho (n, false) <> rho (n, true)) -> local g U f -> is_topo g order = true ->
+  minimized_of g ev = Some m -> (forall p, In p ev -> In (vn (fst p)) (nodes g)) -> (forall p, In p m -> is_reflexive (fst p) = false) ->
+  cnamed ev -> simplify ev g = SNone -> cevent_true U f rho order ev u = false.
+Proof. intros Hd Hl Ho Hm Hn Hr. exact (simplify_impossible_never g U f rho Hd Hl order Ho u ev m Hm Hn Hr). Qed.
+
+(* not vacuous: X -> Y, {Y_x = y, Y_x = y (again), X = x} simplifies to two conjuncts; {Y_x = y, Y_x = y'} is impossible *)
+Example C19_simplify_clause_not_vacuous :
+  let g := MG [0; 1] [(0, 1)] [] in
+  let yx := mkVar KCf 1 None [(0, false)] in
+  simplify [(yx, Some (1, false)); (yx, Some (1, false)); (V 0, Some (0, true))] g = SEvent [(yx, Some (1, false)); (V 0, Some (0, true))] /\
+  simplify [(yx, Some (1, false)); (yx, Some (1, true))] g = SNone /\
+  minimized_of g [(yx, Some (1, false)); (yx, Some (1, true))] = Some [(yx, Some (1, false)); (yx, Some (1, true))].
+Proof. vm_compute. auto. Qed.
+
 (* Proved on the model for every variable and graph: *)
 Theorem C19_minimisation_is_total_well_formed_and_keeps_exactly_the_relevant_subscripts (v : var) (g : mg nat) :
   exists v', minimize_counterfactual v g = Some v' /\ vn v' = vn v /\ vs v' = vs v /\
@@ -73,6 +98,8 @@ Print Assumptions C19_every_submodel_has_exactly_one_solution.
 Print Assumptions C19_minimising_an_event_preserves_its_truth_everywhere.
 Print Assumptions C19_listed_ancestor_takes_the_value_it_has_in_that_world.
 Print Assumptions C19_simplify_preserves_probability_refuted.
+Print Assumptions C19_simplify_without_reflexive_conjuncts_preserves_truth.
+Print Assumptions C19_simplify_without_reflexive_conjuncts_impossible_only_if_never_true.
 Print Assumptions C19_minimisation_is_total_well_formed_and_keeps_exactly_the_relevant_subscripts.
 Print Assumptions C19_old_minimisation_raised_refuted.
 Print Assumptions C19_old_components_merged_through_outside_edges_refuted.
